@@ -280,7 +280,7 @@ def vm_arm_terms(ctx):
                         for (bid, nm) in hirq.pat_bindings(q):
                             child_of[nm] = i
             hf = HirFront(fn, child_of, rec_callees=[VM + "::parse_expr"], skip_callees=[VM + "::skip"],
-                          rule_callees=[VM + "::parse_rule"])
+                          rule_callees=[VM + "::parse_rule"], crate=ctx.vm)
             # lets inside the arm only
             hf.lets = hirq.lets(arm["body"])
             t = hf.term(arm["body"])
